@@ -624,6 +624,8 @@ func (c *ctx) exec(sc scenario, base *xmpp.StreamFeature) (res result) {
 		res.outcome = "err." + errClass(err)
 	default:
 		res.state = uint8(s.State())
+		// (taken before the probe below, which would trigger a pending handshake)
+		hsDone := common.B(s.ConnectionState().HandshakeComplete)
 		// Is a TLS layer in place?  Write a probe through the session's connection and
 		// look for it on the raw wire.
 		layer := "1"
@@ -634,7 +636,7 @@ func (c *ctx) exec(sc scenario, base *xmpp.StreamFeature) (res result) {
 		if strings.Contains(string(after[len(out):]), "<probe/>") {
 			layer = "0"
 		}
-		res.outcome = fmt.Sprintf("done.%d.%s", res.state, layer)
+		res.outcome = fmt.Sprintf("done.%d.%s.%s", res.state, layer, hsDone)
 	}
 	// closing lets the TLS server drain what the client wrote last, then stop
 	w.close()
